@@ -12100,6 +12100,46 @@ where
 		}
 	}
 
+	/// On startup, checks whether a blocked monitor update which, going by `update_id`s, the (newer)
+	/// [`ChannelMonitor`] has already been given is in fact missing from it.
+	///
+	/// A payment preimage update built while monitor updates are blocked takes the `update_id` of
+	/// the first blocked update (see [`Self::get_update_fulfill_htlc_and_commit`]). If we were
+	/// serialized before that, the [`ChannelMonitor`] reached our blocked update's `update_id`
+	/// without ever seeing the commitment state the blocked update carries, and we cannot tell
+	/// what else we have missed.
+	pub fn on_startup_blocked_mon_update_missing_from_monitor(
+		&self, loaded_mon_update_id: u64, mon_min_seen_secret: u64,
+		mon_counterparty_commitment_number: u64, mon_holder_commitment_number: u64,
+	) -> bool {
+		self.context.blocked_monitor_updates.iter().any(|update| {
+			update.update.update_id <= loaded_mon_update_id
+				&& update.update.updates.iter().any(|step| match step {
+					ChannelMonitorUpdateStep::CommitmentSecret { idx, .. } => {
+						*idx < mon_min_seen_secret
+					},
+					ChannelMonitorUpdateStep::LatestCounterpartyCommitmentTXInfo {
+						commitment_number,
+						..
+					} => *commitment_number < mon_counterparty_commitment_number,
+					ChannelMonitorUpdateStep::LatestCounterpartyCommitment {
+						commitment_txs, ..
+					} => commitment_txs
+						.iter()
+						.any(|tx| tx.commitment_number() < mon_counterparty_commitment_number),
+					ChannelMonitorUpdateStep::LatestHolderCommitmentTXInfo {
+						commitment_tx, ..
+					} => commitment_tx.commitment_number() < mon_holder_commitment_number,
+					ChannelMonitorUpdateStep::LatestHolderCommitment { commitment_txs, .. } => {
+						commitment_txs
+							.iter()
+							.any(|tx| tx.commitment_number() < mon_holder_commitment_number)
+					},
+					_ => false,
+				})
+		})
+	}
+
 	/// On startup, its possible we detect some monitor updates have actually completed (and the
 	/// ChannelManager was simply stale). In that case, we should simply drop them, which we do
 	/// here after logging them.
